@@ -136,10 +136,8 @@ impl EpochSnapshotManager {
             {
                 queue.push_back(snapshot);
             } else {
-                tracing::warn!(
-                    "Failed to parse snapshot name during hydration: {}",
-                    snapshot_name
-                );
+                // The snapshot name embeds the MLS group id (snap_{group_id_hex}_...): never log it.
+                tracing::warn!("Failed to parse snapshot name during hydration");
             }
         }
 
